@@ -6,7 +6,7 @@ META = {
     "technique": "Coq proof: bit-slice uniformity of ss/l (N.testbit), swapN as an index xor, position map pos r relating the eight 128-bit registers to the 256 nibbles of the specification round by round, generated round constants = table under the position map, padding schedule by case analysis on len mod 64, length counter invariant; KAT-anchored nibble-oriented spec; differential correspondence impl = model = spec on digests, on F8 directly for every machine type, and on states entered through hook H2",
     "level_text": "Machine-checked theorems in Props/C06.v, all closed under the global context: C06_f8_eq_spec (for EVERY 128-byte state and 64-byte block the model of Compressor::{new,input,finalize} / f8_impl equals F8 of the specification: full, not partial), built from C06_ss_bitwise_eq_sbox and C06_l_bitwise_eq_L (bit j of the outputs of ss / l is S0/S1 / L on bit j of the inputs, for all 128-bit words), C06_swap_eq_index_xor (swapN moves bit j to j xor N), C06_bitslice_constants_eq_spec (each of the 42 table entries is the generated constant R6^r(C0) under the position map of round r mod 7), C06_round_eq_spec (the unroll7! body is R8 under the position maps, period 7), grouping/de-grouping against the byte layout of the registers; C06_iv_table_eq_spec (consts.rs = F8(H(-1),0)); C06_schedule_eq_spec (blocks fed to F8 = specified padding, both branches, every message below 2^61 bytes, both build profiles); C06_jh224/256/384/512_eq_spec (Digest::digest(msg) = JH-n(msg) for every byte string below 2^61 bytes); C06_length_field_limit (at 2^61 bytes datalen*8 overflows: debug panics, release writes 0). Props/C17_jh.v: C17_jh_len_exact / C17_jh_blocks_exact / C17_jh_digest_conforms (for every sequence of update calls with < 2^61 bytes in total: no panic, datalen exact, length field = 8*bytes, blocks compressed = specified padding, digest = specification). The specification reproduces 20 NIST vectors, the four published initial values and the published C1 (C06_kats). Implementation = model = spec is checked on generated cases: digests, F8 on five machine types, hook-entered states.",
     "level_note": "Trusted: Coq kernel+VM; spec transcription of the JH round-3 document (anchored by the NIST vectors of KAT_JH.v and the published initial values); hand-written model of compressor.rs/lib.rs/consts.rs and of block-buffer 0.9 input_block/len64_padding_be/pad_with tied to the code on generated cases; ppv-lite86 u128x1/u128x2 operations taken by their lane meaning (their conformance is C12/C13; F8 is run on SSE2, SSSE3, SSE4.1, AVX2 and the host dispatch); harness; hook H2 (verif_set_state/verif_get_state). No axioms.",
-    "rule": "digest cases = (variant, message, split point of the update calls (split = len: one call), optional entered state (chaining value, datalen, buffered bytes)); streams: every message length 0..3*64+1 (quick: variant rotates with the length except at the padding boundaries 0,1,55,56,63,64,65,128; thorough: all four variants x 4 contents), sparse longer messages up to 16 KiB, hook states with datalen at offsets -129..+64 around 0, 64, 2^13, 2^21, 2^29 bytes (= 2^32 bits), 2^32, 2^56, 2^61 (datalen*8 leaves 64 bits: debug panics, release wraps), 2^61+2^29, 2^63, 2^64 (datalen += len overflows) with tails that cross the boundary, a few inconsistent states (datalen unrelated to the buffer), and real_stream cases: 2^29-k bytes (k = 64,1,129,200) are really streamed into the hasher in update calls of varying sizes, the state read back through the hook must have datalen = bytes streamed (direct failure otherwise) and becomes the entered state of the case, whose tail then crosses 2^32 bits; contents random/zero/ones/counting/structured; implementation outcome, (datalen, position, chaining value) after the updates and the digest are compared with the model, and with the spec whenever the state is consistent and the total length is below 2^61 bytes, inside coqc. F8 cases = (state, block): fixed patterns, unit vectors of state (1024) and block (512) (quick: every 8th), single-bit flips on random backgrounds, random/structured; each run through Compressor (host dispatch) and f8_impl::<SSE2|SSSE3|SSE41|AVX2> with the block at an odd address; every distinct output is compared with model F8 and spec F8 inside coqc. distinct = distinct inputs; non-trivial = every digest case (all run padding and at least one F8), F8 cases with a non-zero input; CONFIGURATIONS (quick): debug: digests all streams + F8; release: hook stream + real stream, F8, the reduced digest stream (padding boundaries 0,1,55,56,63,64,65,119,120,128 for all four variants, every 8th other length, four longer messages, a twelfth of the hook product); release with every arm of the crate's own dispatch! (compressor.rs f8) forced through hook H1 (--level 1..5 = SSE2, SSSE3, SSE4.1, AVX, AVX2; before, only the arm the host's detection selects ever ran for digests): reduced stream each; release built with this machine's SIMD target features (-C target-feature=+ssse3,+sse4.1,+aes,+avx,+avx2: cfg(target_feature) arms): reduced stream + F8; thorough adds F8 under every forced level. The hook sub-sampling (a quarter of the (boundary, offset, tail) product) now rotates with the (boundary, offset) pair and the seed, so every tail class (0 = finalise directly from the entered state, 1, exact fill 64-nbuf, 65, 130, fill+64) meets every boundary; the variant of a hook / real_stream case rotates with the seed; the length of every digest returned is checked in the harness against size/8 (direct failure otherwise); cases carry domain = within / beyond (datalen + message >= 2^61: behaviour as written stays pinned) / inconsistent entered state",
+    "rule": "digest cases = (variant, message, split point of the update calls (split = len: one call), optional entered state (chaining value, datalen, buffered bytes)); streams: one_long_update (full debug stream only: ONE update call of 8 KiB and of 16 KiB + 1 bytes per variant; contents the computable sequence LP (byte i = x_i >> 8, x_(i+1) = 5 x_i + 12345 mod 2^16; defined in the header of the generated case files, so the case carries no 64 KiB literal)), every message length 0..3*64+1 (quick: variant rotates with the length except at the padding boundaries 0,1,55,56,63,64,65,128; thorough: all four variants x 4 contents), sparse longer messages up to 16 KiB, hook states with datalen at offsets -129..+64 around 0, 64, 2^13, 2^21, 2^29 bytes (= 2^32 bits), 2^32, 2^56, 2^61 (datalen*8 leaves 64 bits: debug panics, release wraps), 2^61+2^29, 2^63, 2^64 (datalen += len overflows) with tails that cross the boundary, a few inconsistent states (datalen unrelated to the buffer), and real_stream cases: 2^29-k bytes (k = 64,1,129,200) are really streamed into the hasher in update calls of varying sizes, the state read back through the hook must have datalen = bytes streamed (direct failure otherwise) and becomes the entered state of the case, whose tail then crosses 2^32 bits; contents random/zero/ones/counting/structured; implementation outcome, (datalen, position, chaining value) after the updates and the digest are compared with the model, and with the spec whenever the state is consistent and the total length is below 2^61 bytes, inside coqc. F8 cases = (state, block): fixed patterns, unit vectors of state (1024) and block (512) (quick: every 8th), single-bit flips on random backgrounds, random/structured; each run through Compressor (host dispatch) and f8_impl::<SSE2|SSSE3|SSE41|AVX2> with the block at an odd address; every distinct output is compared with model F8 and spec F8 inside coqc. distinct = distinct inputs; non-trivial = every digest case (all run padding and at least one F8), F8 cases with a non-zero input; CONFIGURATIONS (quick): debug: digests all streams + F8; release: hook stream + real stream, F8, the reduced digest stream (padding boundaries 0,1,55,56,63,64,65,119,120,128 for all four variants, every 8th other length, four longer messages, a twelfth of the hook product); release with every arm of the crate's own dispatch! (compressor.rs f8) forced through hook H1 (--level 1..5 = SSE2, SSSE3, SSE4.1, AVX, AVX2; before, only the arm the host's detection selects ever ran for digests): reduced stream each; release built with this machine's SIMD target features (-C target-feature=+ssse3,+sse4.1,+aes,+avx,+avx2: cfg(target_feature) arms): reduced stream + F8; thorough adds F8 under every forced level. The hook sub-sampling (a quarter of the (boundary, offset, tail) product) now rotates with the (boundary, offset) pair and the seed, so every tail class (0 = finalise directly from the entered state, 1, exact fill 64-nbuf, 65, 130, fill+64) meets every boundary; the variant of a hook / real_stream case rotates with the seed; the length of every digest returned is checked in the harness against size/8 (direct failure otherwise); cases carry domain = within / beyond (datalen + message >= 2^61: behaviour as written stays pinned) / inconsistent entered state",
     "assumptions": ["little-endian x86-64 host", "usize is 64 bits (datalen as u64 is the identity)",
                     "message shorter than 2^61 bytes (the implementation's 64-bit bit-length field; the JH format itself allows 2^128-1 bits: see notes/jh.md, finding JH-L1)"],
 }
